@@ -45,7 +45,7 @@ def broadband(rng, ns, maxint, wide=False):
         # the file format is int16 whatever the converter's nominal max-int: slow components well beyond +-maxint counts, within int16
         amp = 30000 * float(rng.uniform(0.5, 0.95)) / float(np.max(np.abs(x)))
     raw = np.clip(np.round(x * amp), -32768, 32767).astype(np.int16)
-    sync = rng.integers(0, 2 ** 15, (ns, 1)).astype(np.int16)
+    sync = G.sync_words(rng, (ns, 1))
     return np.ascontiguousarray(np.c_[raw, sync])
 
 
